@@ -15,9 +15,9 @@ pub const PAYLOADS: [&str; 38] = [
     "while", "str-get",
 ];
 
-pub const CTXS: [&str; 20] = [
+pub const CTXS: [&str; 22] = [
     "none", "fn-arg", "fn-arg-first", "closure-arg", "match-scrut", "match-arm", "if-then", "if-else", "if-cond", "tuple-elem", "array-elem",
-    "struct-field", "ctor-arg", "bin-left", "bin-right", "unary", "ref-content", "vec-elem", "generic-arg", "while-body",
+    "struct-field", "ctor-arg", "bin-left", "bin-right", "unary", "ref-content", "vec-elem", "generic-arg", "while-body", "while-dead-use", "while-dead-use-nested",
 ];
 
 pub const TOPS: [&str; 8] = ["let-show", "discard", "stmt", "return", "closure-body", "unused-let", "arm-discard", "nested-fn"];
@@ -354,6 +354,28 @@ fn ctx(name: &str, h: Frag, n: &mut Names) -> Option<Frag> {
                 )),
             )));
             (bi("ref_get", vec![v(acc)]), ty)
+        }
+        "while-dead-use" | "while-dead-use-nested" => {
+            // the hole's value is held in a variable whose only reader is an unused let inside a loop
+            // body (inside a loop inside that body): dead-code elimination meets a back edge
+            let o = n.fresh("o");
+            let c = n.fresh("c");
+            let dead = n.fresh("dead");
+            pre.push(let_(o, hole));
+            pre.push(let_(c, bi("ref", vec![int(0)])));
+            let bump = |c: VarId| st(bi("ref_set", vec![v(c), add(bi("ref_get", vec![v(c)]), int(1))]));
+            let inner: Vec<Stmt> = if name == "while-dead-use" {
+                vec![let_(dead, v(o)), bump(c)]
+            } else {
+                let d = n.fresh("d");
+                vec![
+                    let_(d, bi("ref", vec![int(0)])),
+                    st(E::While(Box::new(bin(BinOp::Lt, bi("ref_get", vec![v(d)]), int(2))), Box::new(block(vec![let_(dead, v(o)), bump(d)], None)))),
+                    bump(c),
+                ]
+            };
+            pre.push(st(E::While(Box::new(bin(BinOp::Lt, bi("ref_get", vec![v(c)]), int(2))), Box::new(block(inner, None)))));
+            (ty.probe(9), ty)
         }
         _ => return None,
     };
